@@ -1,0 +1,34 @@
+//go:build verif
+
+package proto
+
+import (
+	"net"
+
+	"ergo.services/ergo/gen"
+)
+
+// VerifPool returns the net.Conn of every pooled link of a connection, in pool (slice) order.
+// Verification harness only (build tag verif).
+func VerifPool(c gen.Connection) []net.Conn {
+	conn, ok := c.(*connection)
+	if ok == false {
+		return nil
+	}
+	conn.pool_mutex.RLock()
+	defer conn.pool_mutex.RUnlock()
+	res := make([]net.Conn, 0, len(conn.pool))
+	for _, pi := range conn.pool {
+		res = append(res, pi.connection)
+	}
+	return res
+}
+
+// VerifRecvQueues returns the number of receive queues of a connection.
+func VerifRecvQueues(c gen.Connection) int {
+	conn, ok := c.(*connection)
+	if ok == false {
+		return 0
+	}
+	return len(conn.recvQueues)
+}
